@@ -47,18 +47,20 @@ var redirect = map[string][2]string{
 
 // Report is written to sites.json.
 type Report struct {
-	Dir         string   `json:"dir"`
-	Sites       []string `json:"sites"`       // instrumented map-range sites; index = site id
-	Native      []string `json:"native"`      // map ranges left with Go's native order, with the reason
-	GoStmts     int      `json:"go_stmts"`    // rewritten go statements
-	GoApprox    int      `json:"go_approx"`   // ... whose arguments are evaluated late
-	Unsupported []string `json:"unsupported"` // constructs the simulator does not control
-	ChanOps     int      `json:"channel_ops"` // blocking channel operations rewritten to park in the kernel
-	Redirected  []string `json:"redirected"`  // file: import
-	Vars        int      `json:"package_vars"`
-	TypeErrors  []string `json:"type_errors"`
-	Files       int      `json:"files"`
-	Rewritten   int      `json:"rewritten"`
+	Dir         string            `json:"dir"`
+	Sites       []string          `json:"sites"`              // instrumented map-range sites; index = site id
+	Native      []string          `json:"native"`             // map ranges left with Go's native order, with the reason
+	GoStmts     int               `json:"go_stmts"`           // rewritten go statements
+	GoApprox    int               `json:"go_approx"`          // ... whose arguments are evaluated late
+	Unsupported []string          `json:"unsupported"`        // constructs the simulator does not control
+	ChanOps     int               `json:"channel_ops"`        // blocking channel operations rewritten to park in the kernel
+	DepFiles    []string          `json:"dependency_files"`   // files of dependencies whose os / path/filepath imports were redirected
+	DepReplace  map[string]string `json:"dependency_replace"` // module path -> directory of the rewritten copy
+	Redirected  []string          `json:"redirected"`         // file: import
+	Vars        int               `json:"package_vars"`
+	TypeErrors  []string          `json:"type_errors"`
+	Files       int               `json:"files"`
+	Rewritten   int               `json:"rewritten"`
 }
 
 func fatal(a ...any) {
@@ -67,7 +69,7 @@ func fatal(a ...any) {
 }
 
 func main() {
-	if len(os.Args) != 3 {
+	if len(os.Args) < 3 {
 		fatal("usage: simgen <package dir> <out dir>")
 	}
 	dir, out := os.Args[1], os.Args[2]
@@ -411,7 +413,75 @@ func main() {
 		fatal(err)
 	}
 	overlay[filepath.Join(dir, "zz_verif_state.go")] = statePath
-
+	// Dependencies that do file-system I/O of their own (further arguments: their source
+	// directories): only the imports of os and path/filepath are redirected, so that what they
+	// read is the simulated world too.
+	for di, dep := range os.Args[3:] {
+		// (files of the module cache cannot be overlaid reliably - the go command indexes them - so
+		// the dependency is copied and the build uses the copy through a replace directive)
+		ents, err := os.ReadDir(dep)
+		if err != nil {
+			continue
+		}
+		modPath := ""
+		if gm, err := os.ReadFile(filepath.Join(dep, "go.mod")); err == nil {
+			for _, l := range strings.Split(string(gm), "\n") {
+				if strings.HasPrefix(l, "module ") {
+					modPath = strings.TrimSpace(strings.TrimPrefix(l, "module "))
+				}
+			}
+		}
+		if modPath == "" {
+			continue
+		}
+		dstDir := filepath.Join(out, fmt.Sprintf("dep%d", di))
+		os.MkdirAll(dstDir, 0o755)
+		touchedAny := false
+		for _, e := range ents {
+			n := e.Name()
+			if e.IsDir() || strings.HasSuffix(n, "_test.go") {
+				continue
+			}
+			src, err := os.ReadFile(filepath.Join(dep, n))
+			if err != nil {
+				continue
+			}
+			if strings.HasSuffix(n, ".go") {
+				if df, err := parser.ParseFile(fset, filepath.Join(dep, n), src, parser.ParseComments); err == nil {
+					touched := false
+					for _, im := range df.Imports {
+						ip, _ := strconv.Unquote(im.Path.Value)
+						if (ip != "os" && ip != "path/filepath") || (im.Name != nil && (im.Name.Name == "_" || im.Name.Name == ".")) {
+							continue
+						}
+						r := redirect[ip]
+						im.Path.Value = strconv.Quote(r[1])
+						if im.Name == nil {
+							im.Name = ast.NewIdent(r[0])
+						}
+						touched = true
+					}
+					if touched {
+						var buf bytes.Buffer
+						if format.Node(&buf, fset, df) == nil {
+							src = buf.Bytes()
+							touchedAny = true
+							rep.DepFiles = append(rep.DepFiles, filepath.Join(filepath.Base(dep), n))
+						}
+					}
+				}
+			}
+			if n == "go.mod" || n == "go.sum" || strings.HasSuffix(n, ".go") {
+				os.WriteFile(filepath.Join(dstDir, n), src, 0o644)
+			}
+		}
+		if touchedAny {
+			if rep.DepReplace == nil {
+				rep.DepReplace = map[string]string{}
+			}
+			rep.DepReplace[modPath] = dstDir
+		}
+	}
 	b, _ := json.MarshalIndent(map[string]any{"Replace": overlay}, "", " ")
 	if err := os.WriteFile(filepath.Join(out, "overlay.json"), b, 0o644); err != nil {
 		fatal(err)
